@@ -303,7 +303,7 @@ func r36ActionOrder(c *core.Ctx) {
 	}
 	v := vcalls[0]
 	work := map[string]string{
-		mp + "/processing/gpkg.SourceGeopackage.Init":       "source.Init",
+		mp + "/processing/gpkg.SourceGeopackage.Init":         "source.Init",
 		mp + ".initGPKGTarget":                                "initGPKGTarget",
 		mp + "/processing/gpkg.TargetGeopackage.CreateTables": "CreateTables",
 		mp + ".processBySnapping":                             "processBySnapping",
